@@ -81,7 +81,10 @@ type c11Item struct {
 	bstr     bool // text payload contains "_x": the in-memory shared-string path decodes it (C01/C03 territory)
 }
 
-var c11scratch *xl.File
+var c11scratch [2]*xl.File
+
+// c11date1904: the date system of the case being executed (header option d1904)
+var c11date1904 bool
 
 func c11parseVal(tok string) (v interface{}, model string, it c11Item, err error) {
 	if tok == "" {
@@ -144,7 +147,7 @@ func c11parseVal(tok string) (v interface{}, model string, it c11Item, err error
 		n, e := strconv.ParseInt(rest, 10, 64)
 		d := time.Duration(n)
 		it.isTime = true
-		return d, "f" + hx(strconv.FormatFloat(d.Seconds()/86400, 'f', -1, 32)), it, e
+		return d, "D" + hx(strconv.FormatFloat(d.Seconds()/86400, 'f', -1, 32)), it, e
 	case 't':
 		p := strings.SplitN(rest, ",", 2)
 		if len(p) != 2 {
@@ -160,11 +163,19 @@ func c11parseVal(tok string) (v interface{}, model string, it c11Item, err error
 		tv := time.Unix(sec, ns).UTC()
 		// what a time.Time is stored as (timeToExcelTime + FormatFloat, or the RFC 3339 text): external to the stream
 		// model (C19's territory); obtained through the in-memory API on a scratch workbook
-		if c11scratch == nil {
-			c11scratch = xl.NewFile()
+		k := 0
+		if c11date1904 {
+			k = 1
 		}
-		_ = c11scratch.SetCellValue("Sheet1", "A1", tv)
-		text, _ := c11scratch.GetCellValue("Sheet1", "A1", xl.Options{RawCellValue: true})
+		if c11scratch[k] == nil {
+			c11scratch[k] = xl.NewFile()
+			if c11date1904 {
+				yes := true
+				_ = c11scratch[k].SetWorkbookProps(&xl.WorkbookPropsOptions{Date1904: &yes})
+			}
+		}
+		_ = c11scratch[k].SetCellValue("Sheet1", "A1", tv)
+		text, _ := c11scratch[k].GetCellValue("Sheet1", "A1", xl.Options{RawCellValue: true})
 		isNum := "0"
 		if _, e := strconv.ParseFloat(text, 64); e == nil {
 			isNum = "1"
@@ -490,7 +501,7 @@ func c11panes(spec string) *xl.Panes {
 		return nil
 	}
 	p := strings.Split(spec, ",")
-	if len(p) != 3 {
+	if len(p) != 3 && len(p) != 4 {
 		return nil
 	}
 	x, _ := strconv.Atoi(p[1])
@@ -502,7 +513,15 @@ func c11panes(spec string) *xl.Panes {
 	} else if y == 0 {
 		pane = "topRight"
 	}
-	return &xl.Panes{Freeze: p[0] == "1", Split: p[0] != "1", XSplit: x, YSplit: y, TopLeftCell: tl, ActivePane: pane}
+	// first field: 1 = freeze, 0 = split, 2 = neither (removes the pane); optional fourth field: a selection
+	ps := &xl.Panes{Freeze: p[0] == "1", Split: p[0] == "0", XSplit: x, YSplit: y, TopLeftCell: tl, ActivePane: pane}
+	if len(p) == 4 {
+		ps.Selection = []xl.Selection{{SQRef: tl, ActiveCell: tl, Pane: pane}}
+		if p[3] == "2" {
+			ps.Selection = append(ps.Selection, xl.Selection{SQRef: "A1:B2", ActiveCell: "A1"})
+		}
+	}
+	return ps
 }
 
 func (c *c11Case) exec(line string) {
@@ -683,7 +702,30 @@ func (c *c11Case) exec(line string) {
 		if p == nil {
 			ok = "0"
 		}
-		c.op(fmt.Sprintf("panes %s %s", ok, c11hexb(xl.VerifC11Fields(c.sw, 4, 5))), c11res(err))
+		if p == nil {
+			c.op(fmt.Sprintf("panes %s %s", ok, c11hexb(xl.VerifC11Fields(c.sw, 4, 5))), c11res(err))
+		} else {
+			// the options go to the model, which renders fields 4..5 itself; external: the sheet view's own attributes and field 5
+			f4 := string(xl.VerifC11Fields(c.sw, 4, 4))
+			va := ""
+			if i := strings.LastIndex(f4, "<sheetView"); i >= 0 { // the last sheet view is the one setPanes changes
+				rest := f4[i+len("<sheetView"):]
+				if j := strings.Index(rest, ">"); j >= 0 {
+					va = rest[:j]
+				}
+			}
+			b := func(v bool) string {
+				if v {
+					return "1"
+				}
+				return "0"
+			}
+			toks := []string{"panes2", b(p.Freeze), b(p.Split), strconv.Itoa(p.XSplit), strconv.Itoa(p.YSplit), hx(p.TopLeftCell), hx(p.ActivePane), hx(va), c11hexb(xl.VerifC11Fields(c.sw, 5, 5))}
+			for _, sl := range p.Selection {
+				toks = append(toks, hx(sl.ActiveCell), hx(sl.Pane), hx(sl.SQRef))
+			}
+			c.op(strings.Join(toks, " "), c11res(err))
+		}
 		r.Stat("op:panes:" + c11res(err))
 		if exp := c.accepted == 0 && p != nil; exp != (err == nil) {
 			c.fail("panes:verdict", fmt.Sprintf("SetPanes = %v, expected accept=%v (rows accepted so far: %d)", err, exp, c.accepted), 0)
@@ -1388,6 +1430,14 @@ func c11RunCase(r *Run, lines []string) *c11Case {
 		}
 		c.styles = append(c.styles, a)
 	}
+	c11date1904 = len(hdr) > 3 && hdr[3] == "d1904"
+	if c11date1904 {
+		// the 1904 date system: SetRow reads it from the workbook properties like SetCellValue does
+		yes := true
+		_ = c.sf.SetWorkbookProps(&xl.WorkbookPropsOptions{Date1904: &yes})
+		_ = c.mf.SetWorkbookProps(&xl.WorkbookPropsOptions{Date1904: &yes})
+		r.Stat("case:date1904")
+	}
 	if len(hdr) > 3 && (hdr[3] == "x14" || hdr[3] == "x14t") {
 		// worksheet settings made before the stream writer is created: conditional formats incl. an x14 data bar
 		// (lives in the worksheet's extLst) — the stream writer carries the worksheet's fields over by reflection
@@ -1602,6 +1652,9 @@ func c11genCase(rng *Rng, kind string) []string {
 	rich := kind == "rich"
 	nStyles := rng.Range(0, 4)
 	lines := []string{fmt.Sprintf("case %s %d", kind, nStyles)}
+	if rng.Chance(12) {
+		lines[0] += " d1904"
+	}
 	// pre-row calls in random order; some deliberately after the first row
 	pre := []string{}
 	if rng.Chance(55) {
@@ -1639,7 +1692,11 @@ func c11genCase(rng *Rng, kind string) []string {
 			if x == 0 && y == 0 {
 				y = 1
 			}
-			pre = append(pre, fmt.Sprintf("panes 1,%d,%d", x, y))
+			spec := fmt.Sprintf("panes %d,%d,%d", rng.Pick2([]int{1, 1, 1, 0, 0, 2}), x, y)
+			if rng.Chance(40) {
+				spec += fmt.Sprintf(",%d", rng.Range(1, 2))
+			}
+			pre = append(pre, spec)
 		}
 	}
 	merges := []string{}
@@ -1835,6 +1892,8 @@ func c11witnesses() [][]string {
 		// Cell / *Cell carrying a formula AND a cached value of every kind (string, []byte, bool, numbers, nil)
 		{"case model 1", "setrow 4131 - C0,413226227922,s7879 P0,555050455228222078202229,y205820 C0,313e32,b0 P1,323e31,b1 C0,322b33,i5 P0,322b33,u5 C1,312f34,F3fd0000000000000 C0,4e4f572829,n P0,4131,s- C0,4231,s3c6126623e0d0a", "flush"},
 		{"case model 0", "setrow 4131 - C0,4132,s615f78303030445f62 C0,4132,y780779", "flush"},
+		// times and durations in the 1904 date system (1904-01-01 12:00 is serial 0.5 there, 1462.5 in the 1900 system)
+		{"case model 1 d1904", "setrow " + hx("A1") + " - t-2082801600,0 t-2082844800,0 t1700000000,500000000 C1,-,t1700000000,0 d5400000000000 C0," + hx("A1+1") + ",d90000000000000", "flush"},
 		{"case model 0", "flush"},
 		{"case model 0", "merge " + hx("A1") + " " + hx("B2"), "flush"},
 	}
